@@ -20,6 +20,7 @@ Executable copies of what the code does (bugs included), all total:
                        the acceptance loops of Library::isIntArgValid / isFloatArgValid, clause by clause and in
                        the code's evaluation order (an InternalError thrown by a conversion is the result `.err`).
   * `Spec`: `Range`, `ValidExpr`, `render`, `mem` (union of intervals), `parseValid`.
+  (state of the code: after the fixes 279e2e4 and e6ae137)
   * argument-check decision tables: `loadArgs`, `getarg`, `matchArguments`, `isnullargbad`, `isboolargbad`,
     `isuninitargbad`.
 
@@ -541,8 +542,10 @@ def clause : Res → Option Res
 /-- the body of the loop of Library::isIntArgValid at the token `t` (`prev` = spelling of `tok->previous()`,
 `rest` = the tokens behind it): `some r` = leave with `r`, `none` = next token -/
 def intStep (x : Int) (prev : Option Str) (t : Str) (rest : List Str) : Option Res :=
-  -- tok->isNumber() && argvalue == MathLib::toBigNumber(tok)
-  clause (if isNumber t then (match toBigNumber t with | some v => .ok (x == v) | none => .err) else .ok false)
+  -- a single value: Token::Match(tok, "%num% !!:") && !Token::simpleMatch(tok->previous(), ":")
+  --                  && argvalue == MathLib::toBigNumber(tok)
+  clause (if isNumber t && !(rest.head? == some colonTok) && !(prev == some colonTok)
+          then (match toBigNumber t with | some v => .ok (x == v) | none => .err) else .ok false)
   -- Token::Match(tok, "%num% : %num%") && argvalue >= toBigNumber(tok) && argvalue <= toBigNumber(tok->tokAt(2))
   <|> clause (match rest with
       | c :: n :: _ =>
@@ -570,6 +573,19 @@ def intStep (x : Int) (prev : Option Str) (t : Str) (rest : List Str) : Option R
           | some hi => .ok (x ≤ hi)
         else .ok false
       | [] => .ok false)
+
+/-- the first clause as it was before commit 279e2e4 (`tok->isNumber() && argvalue == toBigNumber(tok)`: fired on the
+bounds of a range as well).  Kept only for the counterexample theorem that documents the repaired defect. -/
+def intStepOld (x : Int) (prev : Option Str) (t : Str) (rest : List Str) : Option Res :=
+  clause (if isNumber t then (match toBigNumber t with | some v => .ok (x == v) | none => .err) else .ok false)
+  <|> intStep x prev t rest
+
+def scanIntOld (x : Int) : Option Str → List Str → Res
+  | _, [] => .ok false
+  | prev, t :: rest =>
+    match intStepOld x prev t rest with
+    | some r => r
+    | none => scanIntOld x (some t) rest
 
 /-- Library::isIntArgValid, the loop over the token list -/
 def scanInt (x : Int) : Option Str → List Str → Res
@@ -605,8 +621,9 @@ def floatStep (x : Dbl) (prev : Option Str) (t : Str) (rest : List Str) : Option
           | some hi => .ok (x ≤ hi)
         else .ok false
       | [] => .ok false)
-  -- Token::Match(tok, "%num%") && MathLib::isFloat(tok->str()) && MathLib::isEqual(tok->str(), MathLib::toString(argvalue))
-  <|> clause (if isNumber t && isFloat t then
+  -- a single value: Token::Match(tok, "%num% !!:") && !Token::simpleMatch(tok->previous(), ":")
+  --                  && MathLib::isFloat(tok->str()) && MathLib::isEqual(tok->str(), MathLib::toString(argvalue))
+  <|> clause (if isNumber t && !(rest.head? == some colonTok) && !(prev == some colonTok) && isFloat t then
         (match mathIsEqual t (dblToString x) with
          | none => .err
          | some b => .ok b)
@@ -708,30 +725,12 @@ def Range.bounded : Range → Bool
 
 def ValidExpr.bounded (v : ValidExpr) : Bool := v.ranges.all Range.bounded
 
-/-- no closed range is written with its bounds swapped -/
-def Range.ordered : Range → Bool
-  | .closed lo hi => lo ≤ hi
-  | _ => true
-
-def ValidExpr.ordered (v : ValidExpr) : Bool := v.ranges.all Range.ordered
-
-/-- what the code accepts for one range: the interval, plus both end points of a swapped closed range -/
-def Range.memCode (x : Int) : Range → Prop
-  | .closed lo hi => (lo ≤ x ∧ x ≤ hi) ∨ x = lo ∨ x = hi
-  | r => r.mem x
-
-def ValidExpr.memCode (x : Int) (v : ValidExpr) : Prop := ∃ r ∈ v.ranges, r.memCode x
-
 /-- Bool versions (used in the statements about the executable functions) -/
 def Range.memB (x : Int) : Range → Bool
   | .single n => x == n
   | .closed lo hi => decide (lo ≤ x) && decide (x ≤ hi)
   | .from lo => decide (lo ≤ x)
   | .upto hi => decide (x ≤ hi)
-
-def Range.memCodeB (x : Int) : Range → Bool
-  | .closed lo hi => (decide (lo ≤ x) && decide (x ≤ hi)) || x == lo || x == hi
-  | r => r.memB x
 
 /-- what Library::isFloatArgValid accepts for a range whose bounds are written as integers: an integer-formatted
 single value never matches (clause `%num% && MathLib::isFloat(tok->str())`), intervals compare exactly -/
